@@ -5,6 +5,8 @@ sys.path.insert(0, os.path.join(os.path.dirname(os.path.abspath(__file__)), '..'
 import tables
 
 CAPS = [1, 2, 3, 7, 64, 500]
+# large capacities: around 2^10, 2^15, 2^16 (a narrower index / a capped cell array), and a non-power
+BIGCAPS = [1023, 1024, 1025, 5000, 32767, 32768, 32769, 65535, 65536, 65537]
 KINDS = ['hm', 'hs', 'pm']
 SELF_ASSIGN = [False]     # set by streams(): are x = x histories generated (see self_assign_enabled)
 
@@ -265,7 +267,7 @@ def gen_ops(rng, kd, kt, nv, sizes_hint, uni, nops, profile, bad=0.0):
         elif o == 'setv':
             ops.append('setv %d %s %s' % (x, K(), V()))
         elif o == 'new':
-            c = rng.choice(CAPS + [0, 1, 2])
+            c = rng.choice(CAPS + [0, 1, 2]) if rng.random() < 0.9 else rng.choice(BIGCAPS)
             ops.append('new %d %d' % (x, c))
             if x < nv:
                 keys[x] = dict()
@@ -312,6 +314,318 @@ def probe(nv, uni):
     return out
 
 
+
+# ---- load histories: tables of hundreds / thousands of entries -----------------------------------
+def load_universe(rng, kt, cap, n):
+    """about n distinct keys of type kt (as op-file texts) for a table of `cap` cells: a third in ONE bucket (arithmetic
+    progression with step cap, as far as the type reaches), the rest spread over the whole index range 0..cap-1 (the top
+    cells cap-1, cap-2 included) and, for the signed types, negative (sign-extended by hash())."""
+    c = max(cap, 1)
+    if kt == 's':
+        out = ['-']
+        alpha = [0x61, 0x62, 0x63, 0x64, 0x00, 0x80, 0xff, 0x41]
+        # equal at the three hashed positions (0, len/2, len-1) and equal length: one bucket for every capacity
+        for j in range(min(n // 3, 400)):
+            out.append(hexs([0x61, 0x41 + j % 26, 0x41 + (j // 26) % 26, 0x62, 0x41 + (j // 676) % 26, 0x42, 0x63]))
+        while len(out) < n:
+            out.append(hexs([rng.choice(alpha) for _ in range(rng.randrange(1, 7))]))
+            if len(out) % 64 == 0:
+                out = list(dict.fromkeys(out))
+        return list(dict.fromkeys(out))
+    if kt == 'p':
+        lo, hi = 0, (1 << 64) - 1
+    else:
+        lo, hi = type_range(kt)
+    if hi - lo + 1 <= n:                       # int8 / uint8: every value of the type
+        vals = list(range(lo, hi + 1))
+        rng.shuffle(vals)
+        return [str(v) for v in vals]
+    unit = 8 if kt == 'p' else 1               # hash(const void*) = address >> 3
+    vals = []
+    r = rng.randrange(c)
+    j = 0
+    while len(vals) < min(n // 3, 400) and (r + j * c) * unit <= hi:      # (one chain of at most 400)
+        vals.append((r + j * c) * unit + (rng.randrange(8) if kt == 'p' else 0))
+        j += 1
+    vals += [v * unit for v in (c - 1, c - 2, c, c + 1, 2 * c - 1, 0, 1) if lo <= v * unit <= hi]
+    span = min(hi // unit, max(4 * c, 4 * n))
+    tries = 0
+    seen = set(vals)
+    while len(seen) < n and tries < 20 * n:
+        tries += 1
+        v = rng.randrange(span + 1) * unit
+        if lo < 0 and rng.random() < 0.3:
+            v = -rng.randrange(1, min(-lo, span) + 1)
+        elif rng.random() < 0.1:
+            v = rng.randrange(lo, hi + 1)
+        vals.append(v)
+        seen.add(v)
+    return [str(v) for v in dict.fromkeys(vals)]
+
+
+class RefTables:
+    """python-side reference of the key sequences (used only to aim keys, ranks and positions)"""
+    def __init__(self, nv):
+        self.l = [[] for _ in range(nv)]
+        self.s = [set() for _ in range(nv)]
+
+    def put(self, x, pos, k):
+        if k not in self.s[x]:
+            self.l[x].insert(pos, k)
+            self.s[x].add(k)
+
+    def rm_key(self, x, k):
+        if k in self.s[x]:
+            l = self.l[x]
+            n = len(l)
+            i = next((j for j in range(min(n, 48)) if l[j] == k), None)
+            if i is None:
+                i = next((n - 1 - j for j in range(min(n, 48)) if l[n - 1 - j] == k), None)
+            if i is None:
+                l.remove(k)
+            else:
+                del l[i]
+            self.s[x].discard(k)
+
+    def rm_at(self, x, r):
+        k = self.l[x].pop(r)
+        self.s[x].discard(k)
+
+    def set(self, x, keys):
+        self.l[x] = list(keys)
+        self.s[x] = set(keys)
+
+
+def load_history(rng, kd, kt, caps, target, mute_p=0.97, cheap=False, marks_from=0, tail=True):
+    """One variable is grown to `target` entries by append / prepend / positional insert (distinct keys, now and then a
+    present one), interleaved with removals of every flavour; nearly all of these operations are muted ('.op': result and
+    sizes only).  Whenever the size crosses 2^7, 2^8, 2^15, 2^16 (and at the target) the table is looked at in full:
+    find of the first / a middle / the last key, an absent key, traversal both ways.  Then copy / assignment / == / swap /
+    bulk operations with the second variable, a removal burst down to a third, clear and refill.
+    cheap: only operations that cost O(1) / O(chain) in the code under test and no positional ones (for 66000 entries)."""
+    nv = len(caps)
+    uni = load_universe(rng, kt, caps[0], int(target * 1.25) + 8)
+    fresh = list(uni)
+    rng.shuffle(fresh)
+    ref = RefTables(nv)
+    ops = []
+    V = (lambda: str(rng.randrange(0, 100))) if kd != 'hs' else (lambda: '0')
+
+    def emit(o, quiet=True):
+        ops.append(('.' if quiet and rng.random() < mute_p else '') + o)
+
+    def look(x):
+        l = ref.l[x]
+        if cheap:                   # every unmuted line shows the whole state: two per look for the very long tables
+            ops.extend((['find %d %s' % (x, l[-1])] if l else []) + ['bwd %d' % x])
+            return
+        ks = [l[0], l[len(l) // 2], l[-1]] if l else []
+        absent = [k for k in uni[:6] if k not in ref.s[x]][:1]
+        for k in ks + absent:
+            ops.append('find %d %s' % (x, k))
+        ops.append('bwd %d' % x)
+        ops.append('fwd %d' % x)
+
+    def insert(x):
+        n = len(ref.l[x])
+        if fresh and rng.random() < 0.93:
+            k = fresh.pop()
+        else:
+            k = rng.choice(uni)
+        fl = rng.random()
+        if kd != 'pm' and fl < (0.5 if cheap else 0.25):
+            emit('pre %d %s %s' % (x, k, V()))
+            ref.put(x, 0, k)
+        elif fl < 0.45 and not cheap:
+            pos = rng.choice([0, n, rng.randrange(n + 1), rng.randrange(n + 1)])
+            emit('ins %d %d %s %s' % (x, pos, k, V()))
+            ref.put(x, pos, k)
+        else:
+            emit('app %d %s %s' % (x, k, V()))
+            ref.put(x, n, k)
+
+    def remove(x):
+        n = len(ref.l[x])
+        if n == 0:
+            return
+        fl = rng.random()
+        if fl < 0.35 or (cheap and fl < 0.6):
+            k = rng.choice(ref.l[x][:40] + ref.l[x][-40:]) if cheap or rng.random() < 0.5 else rng.choice(ref.l[x])
+            if rng.random() < 0.1:
+                k = rng.choice(uni)
+            emit('rmk %d %s' % (x, k))
+            ref.rm_key(x, k)
+        elif fl < 0.6 and not cheap:
+            r = rng.choice([0, n - 1, rng.randrange(n), rng.randrange(n)])
+            emit('%s %d %d' % ('rmv' if kd == 'pm' and rng.random() < 0.5 else 'rmi', x, r))
+            ref.rm_at(x, r)
+        elif fl < 0.8:
+            emit('rmf %d' % x)
+            ref.rm_at(x, 0)
+        else:
+            emit('rmb %d' % x)
+            ref.rm_at(x, n - 1)
+
+    marks = [m for m in (128, 129, 256, 257, 32768, 65536, 65537) if marks_from <= m < target] + [target]
+    x = 0
+    turns = 0
+    while len(ref.l[x]) < target and (fresh or len(ref.l[x]) < len(uni) - 1) and turns < 3 * target + 200:
+        turns += 1
+        before = len(ref.l[x])
+        if rng.random() < 0.12:
+            remove(x)
+        else:
+            insert(x)
+        if len(ref.l[x]) in marks and before < len(ref.l[x]):
+            marks.remove(len(ref.l[x]))
+            look(x)
+        if not fresh and len(ref.l[x]) >= len(uni) - 2:
+            break
+    look(x)
+    if nv > 1:
+        y = 1
+        if kd != 'pm':
+            ops.append(rng.choice(['copy', 'assign']) + ' %d %d' % (y, x))
+            ref.set(y, ref.l[x])
+            ops.append('eq %d %d' % (x, y))
+            remove(y)
+            ops.append('eq %d %d' % (y, x))
+            if kd == 'hs' and not cheap:
+                for _ in range(20):
+                    remove(y)
+                ops.append('rmall %d %d' % (x, y))
+                for k in list(ref.l[y]):
+                    ref.rm_key(x, k)
+                for _ in range(10):
+                    insert(x)
+                ops.append('appall %d %d' % (x, y))
+                for k in list(ref.l[y]):
+                    ref.put(x, len(ref.l[x]), k)
+        ops.append('swap %d %d' % (x, y))
+        ref.l[x], ref.l[y] = ref.l[y], ref.l[x]
+        ref.s[x], ref.s[y] = ref.s[y], ref.s[x]
+        for _ in range(6):
+            insert(x)
+            insert(y)
+        look(y)
+        x = y if len(ref.l[y]) > len(ref.l[x]) else x
+    if not tail:
+        return ['@%s %s %s' % (kd, kt, ' '.join(str(c) for c in caps))] + ops
+    # removal burst down to about a third
+    goal = len(ref.l[x]) // 3 if not cheap else max(len(ref.l[x]) - 1500, len(ref.l[x]) // 3)
+    while len(ref.l[x]) > goal:
+        remove(x)
+    look(x)
+    if rng.random() < 0.5:
+        ops.append('clear %d' % x)
+        ref.set(x, [])
+    for _ in range(min(len(fresh), rng.randrange(30, 150))):
+        insert(x)
+    look(x)
+    return ['@%s %s %s' % (kd, kt, ' '.join(str(c) for c in caps))] + ops
+
+
+# ---- the reference object in python, for histories too long for the extracted reference -----------------------------
+# The extracted reference (HashSpec.v) and model walk Peano numbers and Coq lists: linear per operation, minutes for
+# one table of 66000 entries.  For such histories (only the stream `huge`) the expected lines are produced by this
+# insertion-ordered unique-key list - the same object as HashSpec.v, restricted to the operations the stream uses.  Keys
+# are compared as op-file texts: the generator writes every key in the canonical form the printers use (decimal inside
+# the range of the key type).
+PY_REF_OPS = ('app', 'pre', 'rmk', 'rmf', 'rmb', 'find', 'has', 'fwd', 'bwd', 'clear')
+PY_REF_MIN_OPS = 5000
+
+
+def py_ref_applies(case):
+    if len(case) <= PY_REF_MIN_OPS or not case[0].startswith('@'):
+        return False
+    head = case[0][1:].split()
+    if head[1] in ('s',):
+        return False
+    return all(l.split(' ', 1)[0].lstrip('.') in PY_REF_OPS for l in case[1:])
+
+
+def py_reference(case):
+    head = case[0][1:].split()
+    kd, nv = head[0], len(head) - 2
+    order = [[] for _ in range(nv)]          # keys in iteration order
+    val = [dict() for _ in range(nv)]        # key -> value
+    out = []
+
+    def it(x, r):
+        k = order[x][r]
+        return 'it=%d:%s:%s' % (r, k, val[x][k])
+
+    def entries(x, rev=False):
+        ks = reversed(order[x]) if rev else order[x]
+        return ' '.join('%s:%s' % (k, val[x][k]) for k in ks)
+
+    for line in case[1:]:
+        t = line.split()
+        muted = t[0].startswith('.')
+        o = t[0].lstrip('.')
+        x = int(t[1])
+        if not 0 <= x < nv:
+            res = 'pre'
+        elif o in ('app', 'pre'):
+            k = t[2]
+            if o == 'pre' and kd == 'pm':
+                res = 'pre'
+            else:
+                if k in val[x]:
+                    if kd == 'hm':
+                        val[x][k] = str(int(t[3]))
+                else:
+                    val[x][k] = str(int(t[3])) if kd == 'hm' else ('0' if kd == 'hs' else '77')
+                    if o == 'app':
+                        order[x].append(k)
+                    else:
+                        order[x].insert(0, k)
+                res = '-' if kd == 'hs' else 'v=' + val[x][k]
+        elif o == 'rmk':
+            k = t[2]
+            if k in val[x]:
+                # aimed at the two ends by the generator: look from the nearer end
+                l = order[x]
+                n = len(l)
+                i = next((j for j in range(min(n, 64)) if l[j] == k), None)
+                if i is None:
+                    i = next((n - 1 - j for j in range(min(n, 64)) if l[n - 1 - j] == k), None)
+                if i is None:
+                    i = l.index(k)
+                del l[i]
+                del val[x][k]
+            res = '-'
+        elif o == 'rmf':
+            if not order[x]:
+                res = 'pre'
+            else:
+                del val[x][order[x].pop(0)]
+                res = it(x, 0) if order[x] else 'it=end'
+        elif o == 'rmb':
+            if not order[x]:
+                res = 'pre'
+            else:
+                del val[x][order[x].pop()]
+                res = 'it=end'
+        elif o == 'find':
+            k = t[2]
+            res = it(x, order[x].index(k)) if k in val[x] else 'it=end'
+        elif o == 'has':
+            res = 'b1' if t[2] in val[x] else 'b0'
+        elif o == 'clear':
+            order[x], val[x] = [], dict()
+            res = '-'
+        elif o in ('fwd', 'bwd'):
+            res = 'w=[%s]' % entries(x, o == 'bwd')
+        else:
+            raise RuntimeError('py_reference: operation not covered: ' + line)
+        if muted:
+            out.append('%s | %s' % (res, ' '.join(str(len(order[y])) for y in range(nv))))
+        else:
+            out.append('%s | %s' % (res, ' '.join('%d:%d,%d,[%s]' % (y, len(order[y]), 0 if order[y] else 1, entries(y)) for y in range(nv))))
+    return out
+
+
 class C02(Check):
     id = 'C02'
     comp = 'Hash'
@@ -319,7 +633,7 @@ class C02(Check):
     harness_sources = ['harness/hash.cpp']
     technique = ('machine-checked proof in Coq about a hand-written Gallina model; model tied to the code by an '
                  'extracted-model vs implementation correspondence check')
-    level_text = ('Theorems in Coq (34, all closed under the global context), for every key type with decidable equality, EVERY '
+    level_text = ('Theorems in Coq (36, all closed under the global context), for every key type with decidable equality, EVERY '
                   'hash function (Section variable: all keys in one bucket is an instance), every list of capacities and every '
                   'history over several container variables and all 24 operations (construct, find, contains, positional insert, '
                   'append, prepend, remove by key / iterator / value, removeFront/Back, clear, swap, front/back, copy, assignment, '
@@ -336,7 +650,9 @@ class C02(Check):
                   '(C02_swap_half_reanchors, C02_swap_refines; the proof needs the invariant); in every reachable state the list of '
                   'variable x runs into the sentinel of x (C02_sentinel_reachable). Inserting a present key keeps rank and all '
                   'other entries and replaces the value for HashMap (C02_insert_present_hashmap) and returns the table unchanged '
-                  'for HashSet/PoolMap (C02_insert_present_set_pool_untouched). Node recycling: live items and free list partition '
+                  'for HashSet/PoolMap (C02_insert_present_set_pool_untouched). The iterator insert returns - and the reference append / '
+                  'prepend return, which the code takes from it - designates the entry find(key) reaches after the call, and there is '
+                  'one (C02_insert_returns_found_entry, C02_insert_ops_return_found_entry). Node recycling: live items and free list partition '
                   'the 4*blocks allocated items in every reachable state (C02_pool_reachable). Backward traversal is modelled '
                   'as the code does it - start at the end sentinel, follow prev pointers (endItem.prev, then the prev pointer of '
                   'each item, items identified by the address = slot the pointer holds), stop when _begin.item is met - and proved '
@@ -348,7 +664,9 @@ class C02(Check):
                   'histories and comparing, after every operation, the result, the public state of every variable, and the '
                   'internals read through an access override: capacity, data!=0, bucket index and chain order of every key, cell '
                   'back-pointers, prev links, slot (block, index) of every item, free list, number of blocks, the item endItem.prev '
-                  'designates and the variable whose sentinel the list runs into. front()/back() are called through the non-const '
+                  'designates and the variable whose sentinel the list runs into. The reference append() / prepend() return must be '
+                  'the ADDRESS of the element find(key) leads to, and a write through it must be read back through find() (token '
+                  'REF! otherwise). front()/back() are called through the non-const '
                   'and the const overloads (same object required). The traversal operations make every step twice - through '
                   'the non-const operator++/-- and through the const operator of the same name on a const copy - and read every '
                   'item through operator*, operator* const, operator-> and operator-> const (same object required, token '
@@ -379,14 +697,30 @@ class C02(Check):
                   'the self-assignment guard (fixes/C02/01); self-assignment histories are generated when the tree carries the '
                   'guard or with VERIF_C02_SELF_ASSIGN=1. Value type int / default-constructed 77 for PoolMap; element '
                   'construction/destruction counts belong to C04. After 400 crashes (or 60 watchdog timeouts of 2 s) of the implementation in one run the remaining '
-                  'cases are not run.')
-    rule = ('case = history of up to ~70 operations over 1-3 container variables of one kind (HashMap<K,int>, HashSet<K>, '
+                  'cases are not run. Sizes and capacities actually run: tables of up to ~1100 entries in the quick tier (stream '
+                  '`load`, sizes crossing 2^7 and 2^8) and of 65600 (quick) / 66000 (thorough) entries in the stream `huge` (crossing 2^15 and 2^16; '
+                  'VERIF_C02_HUGE=0 switches it off), capacities up to 65537 (1023..1025, 5000, 32767..32769, 65535..65537 in the '
+                  'constructor and in `new`). In the long histories most operations are written muted (`.app 0 5 1`): the same step of '
+                  'the same model / reference, but only its result and the sizes of all variables are printed and compared; the whole '
+                  'public state and the internals are compared at the unmuted operations (every crossing of 2^7, 2^8, 2^15, 2^16, '
+                  'every phase end, ~3 % of the other operations). The extracted model and reference are linear per operation (Peano '
+                  'positions, Coq lists): the three `huge` histories (~92000 operations each) are answered by a python '
+                  'reference (checks/C02.py py_reference, 90 lines: the ordered unique-key list of HashSpec.v restricted to append / '
+                  'prepend / remove by key / removeFront / removeBack / find / contains / clear / traversal) - public results only, '
+                  'no internals; every run compares py_reference with the extracted reference on 12 histories of the '
+                  'same generator (150..420 entries).')
+    rule = ('case = history of up to ~70 operations (streams load / huge: up to ~2500 / ~94000) over 1-3 container variables of one kind (HashMap<K,int>, HashSet<K>, '
             'PoolMap<K,Val>), K in {int8,uint8,int16,uint16,int32,uint32,int64,uint64,const void*,String} (integer universes '
             'contain the ends of the range, negative keys and keys colliding in one bucket under the sign-extending hash), most '
-            'random histories end with a backward and a forward traversal of every variable; capacities from {0,1,2,3,7,64,500} (independently per '
+            'random histories end with a backward and a forward traversal of every variable; capacities from {0,1,2,3,7,64,500} and, in every tenth '
+            '`new`, from {1023,1024,1025,5000,32767,32768,32769,65535,65536,65537} (independently per '
             'variable, so swaps between tables of different capacities are frequent); streams: mixed, collide (capacity '
             '1..7 with keys that are multiples of the capacity / Strings equal at the three hashed positions / addresses inside '
-            'one 8-byte word), multi (swap/copy/assign/==/bulk), pool (node recycling), malformed (precondition violations), '
+            'one 8-byte word), multi (swap/copy/assign/==/bulk), pool (node recycling), malformed (precondition violations), load (one table grown to '
+            '129..1100 entries by append / prepend / positional insert interleaved with every removal flavour, then copy / assign / == / '
+            'swap / bulk operations, a removal burst, clear and refill; capacities 1..5000; key types int16..uint64, const void*, String, '
+            'and ALL 256 values of int8 / uint8), bigcap (capacities 1023..65537 with keys aimed at cells 0, 1, 1023..1025, capacity-2, '
+            'capacity-1, colliding partners, negative keys), huge (65600 / 66000 entries per kind), '
             'boundary (hand-written; incl. the empty String key met by every operation through every String storage), iterate '
             '(traversal both ways on empty / one-element tables, after each removal method at front / middle / back, after '
             'clear, swap, copy, assignment; 3 kinds x 10 key types x capacities 1, 7, 500), targeted '
@@ -450,6 +784,24 @@ class C02(Check):
             p = self.write_replay('failing-input', 'member function not instantiable (harness built without -D%s)' % f, witness,
                                   {'reason': what + ' does not compile: ' + msg})
             ctx['violations'].append((p, ''))
+        if self.huge_enabled():
+            # the python reference that answers the `huge` histories is compared with the extracted reference
+            # (HashSpec.v) on shorter histories of the same generator, every operation unmuted now and then
+            cs = [load_history(rng, kd, kt, [cap], target, mute_p=0.8, cheap=True)
+                  for kd in KINDS for kt, cap, target in (('i', 7, 150), ('q', 500, 420), ('l', 1, 90), ('h', 64, 300))]
+            ref = Check.run_spec(self, cs, tag='pyref')
+            for c, r in zip(cs, ref):
+                mine = py_reference(c)
+                if mine != r:
+                    k = next((j for j in range(min(len(mine), len(r))) if mine[j] != r[j]), min(len(mine), len(r)))
+                    p = self.write_replay('no-failing-input-found', 'checks/C02.py py_reference differs from the extracted reference '
+                                          'at line %d of this history' % k, c, {'extracted': (r[k] if k < len(r) else '<nothing>')[:300],
+                                                                               'python': (mine[k] if k < len(mine) else '<nothing>')[:300]})
+                    ctx['violations'].append((p, ' no-failing-input-found'))
+                    break
+
+    def huge_enabled(self):
+        return os.environ.get('VERIF_C02_HUGE', '1') != '0'
 
     def judge(self, cases, impl_obs, spec_obs):
         # the shared reporter groups failures by the first 80 characters of the reason: lead with the operation at
@@ -459,7 +811,7 @@ class C02(Check):
             self.fail_tags = []
         for (i, k, reason) in Check.judge(self, cases, impl_obs, spec_obs):
             ops = [l for l in cases[i] if not l.startswith('@')]
-            name = ops[k].split(' ')[0] if k < len(ops) else 'end-of-history'
+            name = ops[k].split(' ')[0].lstrip('.') if k < len(ops) else 'end-of-history'
             if name in ('front', 'back'):
                 name = 'front/back (non-const overload, then the const overload through a const reference)'
             elif name not in self.fail_tags:
@@ -489,8 +841,10 @@ class C02(Check):
                 res += [['! notrun'] for _ in chunk]
                 continue
             # symbolize=0: a sanitizer report is classified by its headline; symbolizing the stack costs ~1 s per crash
+            # a history of ~100000 operations with whole-state dumps of 66000 entries takes the ASan build ~20 s
+            pct = 120 if any(len(c) > PY_REF_MIN_OPS for c in chunk) else self.per_case_timeout
             r, c = vf.run_exe_on_cases(self.exes['impl'], chunk, os.path.join(vf.BUILD, self.id, 'run'), tag, is_impl=True,
-                                       per_case_timeout=self.per_case_timeout,
+                                       per_case_timeout=pct,
                                        env={'ASAN_OPTIONS': 'detect_leaks=0:abort_on_error=0:allocator_may_return_null=1:'
                                                             'max_allocation_size_mb=2048:symbolize=0'})
             res += r
@@ -501,14 +855,32 @@ class C02(Check):
                 self.timeout_total += sum(1 for v in c.values() if v[0] == 'timeout')
         return res, crashes
 
+    def _with_py_reference(self, cases, tag, run):
+        """histories too long for the extracted reference / model are answered by py_reference (public part only)"""
+        longs = [i for i, c in enumerate(cases) if py_ref_applies(c)]
+        if not longs:
+            return run(self, cases, tag)
+        rest = [c for i, c in enumerate(cases) if i not in longs]
+        got = iter(run(self, rest, tag) if rest else [])
+        return [py_reference(c) if i in longs else next(got) for i, c in enumerate(cases)]
+
+    def run_spec(self, cases, tag='spec'):
+        return self._with_py_reference(cases, tag, Check.run_spec)
+
+    def run_model(self, cases, tag='model'):
+        return self._with_py_reference(cases, tag, Check.run_model)
+
     def shrink(self, case, pred, budget=400):
+        if len(case) > PY_REF_MIN_OPS:
+            # every candidate of a `huge` history costs the implementation tens of seconds: a dozen halvings only
+            return Check.shrink(self, case, pred, budget=12)
         # a candidate on which the broken code loops costs the whole watchdog time
         return Check.shrink(self, case, pred, budget=min(budget, 150))
 
     def nontrivial(self, case, obs):
         # a chain of length >= 2 was observed in the implementation's bucket dump, and something was unlinked
         chained = any(re.search(r'B\[[^\]]*=[^ \],]+,', l) for l in obs)
-        unlink = any(l.split(' ')[0] in ('rmk', 'rmi', 'rmv', 'rmf', 'rmb', 'clear', 'rmall', 'assign', 'swap') for l in case)
+        unlink = any(l.split(' ')[0].lstrip('.') in ('rmk', 'rmi', 'rmv', 'rmf', 'rmb', 'clear', 'rmall', 'assign', 'swap') for l in case)
         return chained and unlink and len(case) >= 5
 
     def streams(self, tier, rng):
@@ -548,6 +920,20 @@ class C02(Check):
                           note='node recycling: more than one block, LIFO free list, clear then reuse'))
         out.append(Stream('malformed', rand_cases(300 * mul, 'mixed', ['i', 's'], bad=0.25, nops=(5, 25)),
                           note='precondition violations (bad variable, position > size, rank >= size, empty container): not executed, state unchanged'))
+        out.append(Stream('load', self.load_cases(rng, thorough),
+                          note='tables of 130..1000 entries (quick: 39 histories, thorough: 6 times as many), all three kinds, key types '
+                               'int16..uint64, const void*, String and the 256 values of int8/uint8; capacities 1, 16, 64, 500, '
+                               '1024, 5000 and the default; sizes cross 2^7 and 2^8; most operations muted (result + sizes), '
+                               'the whole state and the internals are compared at every crossing and after every phase'))
+        out.append(Stream('bigcap', self.bigcap_cases(rng, thorough),
+                          note='capacities 1023, 1024, 1025, 5000, 32767..32769, 65535..65537 in the constructor and in `new`; '
+                               'keys that land in cells 0, 1, 1023, 1024, 1025, capacity-2, capacity-1 and random ones, with colliding partners'))
+        if self.huge_enabled():
+            out.append(Stream('huge', self.huge_cases(rng) if thorough else self.huge_quick_cases(rng),
+                              note='thorough: one table per kind grown to 66000 entries (across 2^15 and 2^16) by muted append / prepend with '
+                                   'removals by key and at both ends; whole state compared at 128, 256, 32768, 65536, 65537, at the end, after '
+                                   'a removal burst and a refill. quick: one such table per kind grown to 65600 entries, whole state '
+                                   'compared at 65536, 65537 and at the end. Expected lines from py_reference (public part only)'))
         out.append(Stream('boundary', self.boundary_cases(rng), note='hand-written boundary histories'))
         out.append(Stream('iterate', self.iterate_cases(),
                           note='traversal through iterators in both directions (operator++ / operator--, const and non-const forms, '
@@ -567,6 +953,95 @@ class C02(Check):
                           note='every history of length <= %d over a 14..18-op alphabet (incl. the backward traversal), 2 variables, capacities 1 and 2, '
                                'keys {0,1,2}; each followed by a traversal of both variables' % (4 if thorough else 3)))
         return out
+
+
+    def load_cases(self, rng, thorough):
+        cases = []
+        kts = ['i', 'l', 'u', 'q', 'p', 's', 'h', 'H', 'i', 's', 'b', 'B', 'i']
+        targets = [130, 131, 200, 257, 260, 300, 520, 1000, 140, 258, 330, 700, 129]
+        caps0 = [1, 16, 64, 500, 1024, 5000, 16, 500, 1, 64, 3, 500, 16]
+        n = 13 * (6 if thorough else 1)
+        for i in range(n):
+            for kd in KINDS:
+                j = (i + KINDS.index(kd) * 4) % 13
+                kt = kts[j]
+                target = targets[(i * 5 + KINDS.index(kd)) % 13] if i < 13 else rng.randrange(129, 1100)
+                if kt in ('b', 'B'):
+                    target = min(target, rng.choice([200, 250, 256]))
+                cap = caps0[(i * 3 + KINDS.index(kd) * 2) % 13] if i < 13 else rng.choice(caps0 + [2, 7, 1023, 1025])
+                if target >= 500 and cap == 1:
+                    cap = 16            # one chain of 1000: every find walks it, the model's chain is a list
+                caps = [cap] + ([rng.choice([1, 7, 16, 500])] if rng.random() < 0.6 else [])
+                cases.append(load_history(rng, kd, kt, caps, target))
+        return cases
+
+    def bigcap_cases(self, rng, thorough):
+        cases = []
+        reps = 3 if thorough else 1
+        for rep in range(reps):
+            for kd in KINDS:
+                v = (lambda: str(rng.randrange(1, 99))) if kd != 'hs' else (lambda: '0')
+                for cap in BIGCAPS:
+                    for kt in (['i', 'q', 'p', 's'] if rep == 0 else [rng.choice(['l', 'u', 'i', 'q', 'h', 'H', 'p', 's'])]):
+                        other = rng.choice(BIGCAPS + [7])
+                        h = '@%s %s %d %d' % (kd, kt, cap, other)
+                        if kt == 's':
+                            keys = load_universe(rng, 's', cap, 40)[:40]
+                        else:
+                            unit = 8 if kt == 'p' else 1
+                            lo, hi = (0, (1 << 64) - 1) if kt == 'p' else type_range(kt)
+                            cells = [0, 1, 1023, 1024, 1025, 4999, cap // 2, cap - 2, cap - 1] + [rng.randrange(cap) for _ in range(6)]
+                            keys = []
+                            for c in cells:
+                                if c >= cap:
+                                    continue
+                                for m in (0, 1, rng.randrange(2, 1000)):        # m > 0: colliding partners
+                                    val = (c + m * cap) * unit + (rng.randrange(8) if kt == 'p' else 0)
+                                    if lo <= val <= hi:
+                                        keys.append(str(val))
+                                if lo < 0:
+                                    # a negative key in the same cell: (2^64 + val) mod cap == c
+                                    val = -(((1 << 64) - c) % cap) - cap * rng.randrange(0, 3)
+                                    if lo <= val < 0 and bucket_of(val, cap) == c:
+                                        keys.append(str(val))
+                            keys = list(dict.fromkeys(keys))
+                        rng.shuffle(keys)
+                        ops = []
+                        ins = ['app', 'app', 'pre', 'ins'] if kd != 'pm' else ['app', 'app', 'ins']
+                        live = []
+                        for k in keys[:24]:
+                            o = rng.choice(ins)
+                            if o == 'ins':
+                                pos = rng.randrange(len(live) + 1)
+                                ops.append('.ins 0 %d %s %s' % (pos, k, v()))
+                                live.insert(pos, k)
+                            else:
+                                ops.append('.%s 0 %s %s' % (o, k, v()))
+                                live.insert(0 if o == 'pre' else len(live), k)
+                        ops += ['find 0 %s' % k for k in keys[:8]] + ['has 0 %s' % keys[-1]]
+                        for k in rng.sample(live, min(6, len(live))):
+                            ops.append('.rmk 0 ' + k)
+                            live.remove(k)
+                        ops += ['.rmf 0', '.rmb 0', 'rmi 0 1', 'bwd 0', 'swap 0 1', '.app 0 %s %s' % (keys[0], v()), 'app 1 %s %s' % (keys[1], v()),
+                                'find 1 ' + keys[2], 'fwd 0']
+                        nb = rng.choice(BIGCAPS)
+                        ops += ['.new 0 %d' % nb] + ['.app 0 %s %s' % (k, v()) for k in keys[3:12]] + ['find 0 ' + keys[5], '.rmk 0 ' + keys[4]]
+                        if kd != 'pm':
+                            ops += ['.assign 0 1', 'eq 0 1', '.copy 1 0', '.rmk 1 ' + keys[2], 'eq 0 1']
+                        if kd == 'hs':
+                            ops += ['.appall 0 1', 'rmall 1 0']
+                        ops += ['.clear 1'] + ['.app 1 %s %s' % (k, v()) for k in keys[10:16]] + ['bwd 1', 'bwd 0']
+                        cases.append([h] + ops)
+        return cases
+
+    HUGE = (('hm', 'i', 500), ('hs', 'q', 5000), ('pm', 'l', 1024))
+
+    def huge_cases(self, rng):
+        return [load_history(rng, kd, kt, [cap], 66000, mute_p=1.0, cheap=True) for kd, kt, cap in self.HUGE]
+
+    def huge_quick_cases(self, rng):
+        # quick tier: per kind ONE table of 65600 entries, whole-state looks at 65536 / 65537 / the end only
+        return [load_history(rng, kd, kt, [cap], 65600, mute_p=1.0, cheap=True, marks_from=65536, tail=False) for kd, kt, cap in self.HUGE]
 
     def boundary_cases(self, rng):
         cases = []
